@@ -32,7 +32,7 @@ from workflows.runtime.types.plugin import (
     InternalRunAdapter,
     V2RuntimeCompatibilityShim,
 )
-from workflows.runtime.types.ticks import WorkflowTick
+from workflows.runtime.types.ticks import TickIdleCheck, WorkflowTick
 from workflows.workflow import Workflow
 
 from .._keyed_lock import KeyedLock
@@ -57,11 +57,30 @@ class _IdleReleaseInternalRunAdapter(BaseInternalRunAdapterDecorator):
         super().__init__(decorated)
         self._runtime = runtime
         self._store = store
+        # True from the moment this run announced idle until it processes another tick
+        self._marked_idle = False
+
+    @override
+    async def on_tick(self, tick: WorkflowTick) -> None:
+        if self._marked_idle and not isinstance(tick, TickIdleCheck):
+            # The run is working again on its own (an event it sent to itself was
+            # pulled, a waiter timeout fired, ...). Clear the idle mark so that a
+            # pending deferred release does not abort the run mid-step.
+            self._marked_idle = False
+            try:
+                await self._store.update_handler_status(self.run_id, idle_since=None)
+            except Exception:
+                logger.exception(
+                    "Failed to clear idle mark for run %s",
+                    self.run_id,
+                )
+        await super().on_tick(tick)
 
     @override
     async def write_to_event_stream(self, event: Event) -> None:
         if isinstance(event, WorkflowIdleEvent):
             idle_since = datetime.now(timezone.utc)
+            self._marked_idle = True
             await self._store.update_handler_status(
                 self.run_id, status="running", idle_since=idle_since
             )
